@@ -233,7 +233,8 @@ private:
     // For bit_aligned images we need to negate all bytes in the row_buffer
     // to make sure that 0 is black and 255 is white.
     detail::negate_bits<std::vector<byte_t>, std::true_type> _negate_bits;
-    detail::swap_half_bytes<std::vector<byte_t>, std::true_type> _swap_half_bytes;
+    // PBM stores the leftmost pixel in the most significant bit (the writer mirrors the bits as well)
+    detail::mirror_bits<std::vector<byte_t>, std::true_type> _swap_half_bytes;
 
     std::function<void(this_t*, byte_t*)> _read_function;
     std::function<void(this_t*)> _skip_function;
